@@ -7,10 +7,10 @@ use crate::rng::Rng;
 type Emit<'a> = &'a mut dyn FnMut(String, String);
 
 /// S-EXPR: one type-directed expression assigned to a wire, operands driven by constants, one cycle.
-pub fn expr(rng: &mut Rng, count: u64, emit: Emit) {
+pub fn expr(rng: &mut Rng, count: u64, mutate: bool, emit: Emit) {
     for _ in 0..count {
         let depth = rng.range(1, 5) as u32;
-        let (prog, _sc) = gen::expr_program(rng, depth);
+        let (prog, _sc) = gen::expr_program(rng, depth, mutate);
         let out = run_program(&prog.text, 1, &[], &format!("(text {})", sexp_escape(&prog.text)));
         match out.request {
             Some(req) => emit(req, out.result),
@@ -36,6 +36,21 @@ pub fn prog(rng: &mut Rng, count: u64, profile: &str, emit: Emit) {
         let g = proggen::program(rng, profile_of(profile));
         let text = proggen::render_program(&g.stmts);
         let out = run_program(&text, g.cycles, &g.mem, &format!("(tags {}) (text {})", g.tags.join(" "), sexp_escape(&text)));
+        match out.request {
+            Some(req) => emit(req, out.result),
+            None => emit(format!("(noparse {})", sexp_escape(&text)), out.result),
+        }
+    }
+}
+
+/// S-PROG with one injected fault (C09) or loop (C10); the injected name is passed along
+pub fn prog_faulty(rng: &mut Rng, count: u64, kind: &str, emit: Emit) {
+    for _ in 0..count {
+        let profile = *rng.pick(&[Profile::Dag, Profile::Banks, Profile::RegFile, Profile::Memory]);
+        let mut g = proggen::program(rng, profile);
+        let (what, name) = if kind == "loop" { proggen::inject_loop(rng, &mut g) } else { proggen::inject_fault(rng, &mut g) };
+        let text = proggen::render_program(&g.stmts);
+        let out = run_program(&text, 2, &g.mem, &format!("(inject {} {}) (text {})", what, name, sexp_escape(&text)));
         match out.request {
             Some(req) => emit(req, out.result),
             None => emit(format!("(noparse {})", sexp_escape(&text)), out.result),
